@@ -29,9 +29,12 @@ VARIANTS = os.path.join(HERE, "selftest", "variants.json")
 ALL_PROPS = [f"C{i:02d}" for i in range(1, 21)]
 
 
-def load_variants() -> List[dict]:
+def load_variants(retired: bool = False) -> List[dict]:
+    """variants in force; 'retired' ones (seeded changes that a later repair of /repo made harmless: their demonstration
+    passes with the change applied, see tools/verify_all_variants.py) are kept on file but take no part in the self-test"""
     with open(VARIANTS) as fh:
-        return json.load(fh)["variants"]
+        vs = json.load(fh)["variants"]
+    return vs if retired else [v for v in vs if v.get("kind") != "retired"]
 
 
 def _make_scratch(repo: str) -> str:
